@@ -185,8 +185,10 @@ class Field:
         for tilt in self.tilt:
             x, y = tilt.shift(xs=x, ys=y, z=z, wavelength=wavelength)
 
+        # pixelscale is (row, column) sampling: x runs along the columns and y
+        # along the rows
         pixelscale = np.broadcast_to(pixelscale, (2,))
-        out = x/pixelscale[0] * oversample, y/pixelscale[1] * oversample
+        out = x/pixelscale[1] * oversample, y/pixelscale[0] * oversample
 
         if indexing == 'ij':
             out = -out[1], out[0]
